@@ -298,7 +298,7 @@ class Value(ArrayCBORSerializable):
         return self <= other and self != other
 
     def to_shallow_primitive(self):
-        if self.multi_asset:
+        if deepcopy(self.multi_asset).normalize():
             return super().to_shallow_primitive()
         else:
             return self.coin
